@@ -84,6 +84,28 @@ def gen_case(rng, keys, allow_bls):
     # how the group object comes about: fresh, or derived from a group that was already sent (it carries the old signature and
     # the hash reported by the node; _spawn copies both into every derived group)
     lineage = rng.choice(['fresh', 'fresh', 'fresh', 'extended', 'extended', 'resigned'])
+    steps = []
+    if contents and rng.random() < 0.45:
+        # forge()/hash()/sign() interleaved with in-place edits of fields of existing contents; `contents` becomes the final state
+        initial = json.loads(json.dumps(contents))
+        for _ in range(rng.choice([1, 2, 3])):
+            steps.append((rng.choice(['forge', 'forge', 'hash_try', 'sign']),))
+            i = rng.randrange(len(contents))
+            c = contents[i]
+            if c['kind'] in G.MANAGER_KINDS:
+                field = rng.choice(['fee', 'counter', 'gas_limit', 'storage_limit'] + (['amount'] if c['kind'] == 'transaction' else []))
+                val = str(G.rand_nat(rng))
+            elif c['kind'] == 'endorsement':
+                field, val = 'level', rng.getrandbits(31)
+            elif c['kind'] == 'failing_noop':
+                field, val = 'arbitrary', G.rand_text(rng, rng.choice([0, 3, len(c['arbitrary'])]))
+            else:
+                field, val = 'secret', G.rand_bytes(rng, 20).hex()
+            c[field] = val
+            steps.append(('edit', i, field, val))
+        return {'curve': curve, 'key': key, 'chain_id': chain, 'group': {'branch': branch, 'contents': contents}, 'lineage': 'fresh',
+                'initial_contents': initial, 'steps': steps,
+                'stale_hash': G.b58o(G.rand_bytes(rng, 32)), 'stale_signature': G.b58('sig', G.rand_bytes(rng, 64))}
     return {'curve': curve, 'key': key, 'chain_id': chain, 'group': {'branch': branch, 'contents': contents}, 'lineage': lineage,
             'stale_hash': G.b58o(G.rand_bytes(rng, 32)), 'stale_signature': G.b58('sig', G.rand_bytes(rng, 64))}
 
@@ -105,7 +127,7 @@ def run_impl(case):
     try:
         ctx_ = ExecutionContext(key=key)
         lineage = case.get('lineage', 'fresh')
-        contents = [dict(c) for c in g['contents']]
+        contents = json.loads(json.dumps(case.get('initial_contents') or g['contents']))
         if lineage == 'extended' and contents:      # a sent group is extended by one more content, then signed again
             parent = OperationGroup(context=ctx_, contents=contents[:-1], branch=g['branch'], chain_id=case['chain_id'],
                                     signature=case['stale_signature'], opg_hash=case['stale_hash'])
@@ -115,6 +137,19 @@ def run_impl(case):
                                  signature=case['stale_signature'], opg_hash=case['stale_hash'])
         else:
             opg = OperationGroup(context=ctx_, contents=contents, branch=g['branch'], chain_id=case['chain_id'])
+        for st in case.get('steps', ()):     # the same object is used for a while before it is signed
+            if st[0] == 'forge':
+                lib.call(opg.forge)
+            elif st[0] == 'hash_try':        # not signed yet: raises; must not leave anything behind
+                lib.call(opg.hash)
+                lib.call(opg.binary_payload)
+            elif st[0] == 'edit':
+                opg.contents[st[1]][st[2]] = json.loads(json.dumps(st[3]))
+            elif st[0] == 'sign':            # sign, keep working on the signed object
+                ok0, r0 = lib.call(opg.sign)
+                if ok0:
+                    lib.call(r0.hash)
+                    opg = r0
         ok, res = lib.call(opg.sign)
     finally:
         del key.sign
@@ -156,14 +191,17 @@ def oracle(case, out):
         return None if not out['ok'] else 'sign() accepted a group that mixes validation passes / lacks a chain id'
     if not out['ok']:
         return f"sign() failed for a {CURVES[case['curve']]} key: {out['error']}"
-    forged = out['forged']
+    msg = out['message']
+    if not isinstance(msg, (bytes, bytearray)) or not msg.startswith(wm):
+        return f"signed message does not start with watermark {wm.hex()} followed by the forged bytes"
+    forged = bytes(msg[len(wm):])          # what was actually signed, judged against the group's CURRENT contents
     try:
         if S.decode_group(forged) != S.canon_group(case['group'], C6.mich):
-            return 'forged bytes are not the canonical encoding of the group'
+            return 'the signed bytes are not the canonical encoding of the current contents of the group (stale or wrong forging)'
     except S.Bad as e:
-        return f'forged bytes are not a valid operation encoding: {e}'
-    if out['message'] != wm + forged:
-        return f"signed message does not start with watermark {wm.hex()} followed by the forged bytes"
+        return f'the signed bytes are not a valid operation encoding: {e}'
+    if out['forged'] != forged:
+        return 'forge() of the signed group differs from the bytes that were signed'
     want_len = 96 if case['curve'] == b'BL' else 64
     if len(out['raw_sig']) != want_len:
         return f"signature has {len(out['raw_sig'])} bytes"
@@ -232,6 +270,15 @@ def run(ctx: lib.Ctx) -> None:
             for key in (keys[cv] if rnd == 0 else list(reversed(keys[cv]))):
                 for g in (shared if cv != b'BL' else shared[:1]):
                     cases.append({'curve': cv, 'key': key, 'chain_id': shared_chain, 'group': json.loads(json.dumps(g))})
+    # large groups (the protocol allows 32 kB of operation data): oracle (B) only, the literals would dominate the coqc time
+    for size in (8_000, 16_000, 16_300, 16_400, 16_600, 24_000, 32_000):
+        c = G.rand_content(rng, rng.choice(['register_global_constant', 'transaction']))
+        if c['kind'] == 'transaction':
+            c['parameters'] = {'entrypoint': 'big', 'value': {'bytes': G.rand_bytes(rng, size).hex()}}
+        else:
+            c['value'] = {'bytes': G.rand_bytes(rng, size).hex()}
+        cv = rng.choice([b'ed', b'sp', b'p2'])
+        cases.append({'curve': cv, 'key': keys[cv][0], 'chain_id': None, 'group': {'branch': G.rand_block_hash(rng), 'contents': [c]}, 'big': True})
     n_total, n_bls = len(cases) + ctx.n(230, 5000), 0
     while len(cases) < n_total:
         c = gen_case(rng, keys, allow_bls=n_bls < ctx.n(6, 120))
@@ -246,8 +293,9 @@ def run(ctx: lib.Ctx) -> None:
                  kind=f"{CURVES[case['curve']]}:{'signable' if must else 'refused'}:{'ok' if out['ok'] else 'raised'}:{case.get('lineage', 'fresh')}",
                  sample={'curve': CURVES[case['curve']], 'kinds': [c['kind'] for c in case['group']['contents']], 'chain_id': case['chain_id'],
                          'signed': out['ok'], 'signature': out.get('signature'), 'hash': out.get('hash')})
-        coq_cases.append(coq_case(case, out))
-        meta.append((case, out))
+        if not case.get('big'):
+            coq_cases.append(coq_case(case, out))
+            meta.append((case, out))
         why = oracle(case, out)
         if why and reported < 3:
             reported += 1
@@ -290,6 +338,7 @@ def run(ctx: lib.Ctx) -> None:
 def replay_doc(case, out):
     d = {'curve': CURVES[case['curve']], 'secret_exponent': case['key'].secret_exponent.hex(), 'chain_id': case['chain_id'], 'group': case['group'],
          'lineage': case.get('lineage', 'fresh'), 'stale_hash': case.get('stale_hash'), 'stale_signature': case.get('stale_signature'),
+         'initial_contents': case.get('initial_contents'), 'steps_before_sign': [list(x) for x in case.get('steps', [])],
          'repro': 'lineage fresh: as below; extended: OperationGroup(.., contents[:-1], signature=stale_signature, opg_hash=stale_hash).operation(contents[-1]); '
                   'resigned: OperationGroup(.., contents, signature=stale_signature, opg_hash=stale_hash); then: '
                   'OperationGroup(context=ExecutionContext(key=Key.from_secret_exponent(bytes.fromhex(secret_exponent), curve)), '
@@ -304,6 +353,7 @@ def replay(ctx, doc):
     cv = {v: k for k, v in CURVES.items()}[doc['curve']]
     case = {'curve': cv, 'key': Key.from_secret_exponent(bytes.fromhex(doc['secret_exponent']), curve=cv), 'chain_id': doc['chain_id'],
             'group': doc['group'], 'lineage': doc.get('lineage', 'fresh'), 'stale_hash': doc.get('stale_hash'),
+            'initial_contents': doc.get('initial_contents'), 'steps': [tuple(x) for x in doc.get('steps_before_sign', [])],
             'stale_signature': doc.get('stale_signature')}
     out = run_impl(case)
     why = oracle(case, out)
